@@ -211,8 +211,11 @@ def entityAmmo (e : Entity) : Except Err Ammo :=
           hdrs := e.headers.foldl (fun h kv => hset h kv.1 kv.2) [] }
   else .error .badmethod
 
-/-- the entity stays inside the class where the model knows `net/url` -/
-def entityKnown (e : Entity) : Bool := uriOK e.uri && (e.host.isEmpty || hostOK e.host) && validMethod e.method
+/-- the entity stays inside the class where the model knows `net/url`, and its header keys are distinct as HTTP header
+names (otherwise the code itself is not deterministic: map iteration order decides which value is kept) -/
+def entityKnown (e : Entity) : Bool :=
+  uriOK e.uri && (e.host.isEmpty || hostOK e.host) && validMethod e.method
+    && cfgDistinct e.headers   -- Go ranges over the `headers` MAP: two keys with one canonical form are set in random order
 
 /-- one pass of the streaming `jsonlineDecoder.Scan` over the decoded entities -/
 def jsonPass : List Entity → List Ammo × Stop
